@@ -35,29 +35,37 @@ theorem coords {n s : Nat} (hn : 0 < n) (hs : s < n * n) : s % n < n ∧ s / n <
 theorem toMove_cases (p : Pos) : p.toMove = .white ∨ p.toMove = .black := by
   unfold Pos.toMove; split <;> simp
 
+theorem disjoint_bits (p : Pos) (wf : WFBoard p) :
+    ∀ k, p.white.getLsbD k = true → p.black.getLsbD k = true → False := by
+  intro k h1 h2
+  have := congrArg (fun v => BitVec.getLsbD v k) wf.disjoint
+  simp [h1, h2] at this
+
 /-- a flat or, failing that, a capstone can be placed on an empty square of the board -/
 theorem place_generic (basis : Array W) (p : Pos) (wf : WFBoard p) (hply : 2 ≤ p.move) (col : Color)
     (hcol : p.toMove = col) (s : Nat) (hs : s < p.cfg.size * p.cfg.size)
     (hemp : (p.white ||| p.black).getLsbD s = false)
     (hres : stonesOf p col ≠ 0#8 ∨ capsOf p col ≠ 0#8) :
-    ∃ m q, p.apply basis m = .ok q ∧ After p q 64 s (own p col) (own q col) := by
+    ∃ m q, m.type ≠ Facts.mtPass ∧ p.apply basis m = .ok q ∧
+      After p q 64 s (own p col) (own q col) (own p col.flip) (own q col.flip) := by
   have hn : 0 < p.cfg.size := by have := wf.size_ok.1; omega
   have h64 := sq_le _ wf.size_ok
+  have hdis := disjoint_bits p wf
   obtain ⟨hx, hy, e⟩ := coords hn hs
   rw [← e] at hemp
   rcases toMove_cases p with hw | hb
   · rw [hw] at hcol; subst hcol
     rcases hres with h | h
-    · obtain ⟨q, h1, h2⟩ := apply_place_flat_w basis p _ _ hx hy h64 hply hw hemp h
-      rw [e] at h2; exact ⟨_, q, h1, h2⟩
-    · obtain ⟨q, h1, h2⟩ := apply_place_cap_w basis p _ _ hx hy h64 hply hw hemp h
-      rw [e] at h2; exact ⟨_, q, h1, h2⟩
+    · obtain ⟨q, h1, h2⟩ := apply_place_flat_w basis p _ _ hx hy h64 hply hw hdis hemp h
+      rw [e] at h2; exact ⟨_, q, by simp only []; decide, h1, h2⟩
+    · obtain ⟨q, h1, h2⟩ := apply_place_cap_w basis p _ _ hx hy h64 hply hw hdis hemp h
+      rw [e] at h2; exact ⟨_, q, by simp only []; decide, h1, h2⟩
   · rw [hb] at hcol; subst hcol
     rcases hres with h | h
-    · obtain ⟨q, h1, h2⟩ := apply_place_flat_b basis p _ _ hx hy h64 hply hb hemp h
-      rw [e] at h2; exact ⟨_, q, h1, h2⟩
-    · obtain ⟨q, h1, h2⟩ := apply_place_cap_b basis p _ _ hx hy h64 hply hb hemp h
-      rw [e] at h2; exact ⟨_, q, h1, h2⟩
+    · obtain ⟨q, h1, h2⟩ := apply_place_flat_b basis p _ _ hx hy h64 hply hb hdis hemp h
+      rw [e] at h2; exact ⟨_, q, by simp only []; decide, h1, h2⟩
+    · obtain ⟨q, h1, h2⟩ := apply_place_cap_b basis p _ _ hx hy h64 hply hb hdis hemp h
+      rw [e] at h2; exact ⟨_, q, by simp only []; decide, h1, h2⟩
 
 /-- the top flat of square `j` can be slid one step onto a neighbouring square `s` without wall or capstone -/
 theorem slide_generic (basis : Array W) (p : Pos) (wf : WFBoard p) (hh : HeightsOK p) (hply : 2 ≤ p.move)
@@ -66,10 +74,12 @@ theorem slide_generic (basis : Array W) (p : Pos) (wf : WFBoard p) (hh : Heights
     (hown : (own p col).getLsbD j = true)
     (hjs : p.standing.getLsbD j = false) (hjc : p.caps.getLsbD j = false)
     (hss : p.standing.getLsbD s = false) (hsc : p.caps.getLsbD s = false) :
-    ∃ m q, p.apply basis m = .ok q ∧ After p q j s (own p col) (own q col) := by
+    ∃ m q, m.type ≠ Facts.mtPass ∧ p.apply basis m = .ok q ∧
+      After p q j s (own p col) (own q col) (own p col.flip) (own q col.flip) := by
   have hn3 := wf.size_ok.1
   have hn : 0 < p.cfg.size := by omega
   have h64 := sq_le _ wf.size_ok
+  have hdis := disjoint_bits p wf
   obtain ⟨hjn, hco, _⟩ := neighbours_cases hs hj
   obtain ⟨hx, hy, e⟩ := coords hn hjn
   obtain ⟨hsx, hsy, es⟩ := coords hn hs
@@ -101,22 +111,22 @@ theorem slide_generic (basis : Array W) (p : Pos) (wf : WFBoard p) (hh : Heights
     rcases hco with ⟨a, b | b⟩ | ⟨a, b | b⟩
     · have t := tR a b
       rw [← t] at hss hsc
-      obtain ⟨q, h1, h2⟩ := apply_slide_right_w basis p _ _ (by omega) hy h64 hply hw hown hjs hjc hht hss hsc
-      rw [t, e] at h2; exact ⟨_, q, h1, h2⟩
+      obtain ⟨q, h1, h2⟩ := apply_slide_right_w basis p _ _ (by omega) hy h64 hply hw hdis hown hjs hjc hht hss hsc
+      rw [t, e] at h2; exact ⟨_, q, by simp only []; decide, h1, h2⟩
     · have t := tL a b
       rw [← t] at hss hsc
       have hx1 : 1 ≤ j % p.cfg.size := by rw [b]; exact Nat.succ_le_succ (Nat.zero_le _)
-      obtain ⟨q, h1, h2⟩ := apply_slide_left_w basis p _ _ hx1 hx hy h64 hply hw hown hjs hjc hht hss hsc
-      rw [t, e] at h2; exact ⟨_, q, h1, h2⟩
+      obtain ⟨q, h1, h2⟩ := apply_slide_left_w basis p _ _ hx1 hx hy h64 hply hw hdis hown hjs hjc hht hss hsc
+      rw [t, e] at h2; exact ⟨_, q, by simp only []; decide, h1, h2⟩
     · have t := tU a b
       rw [← t] at hss hsc
-      obtain ⟨q, h1, h2⟩ := apply_slide_up_w basis p _ _ hx (by omega) h64 hply hw hown hjs hjc hht hss hsc
-      rw [t, e] at h2; exact ⟨_, q, h1, h2⟩
+      obtain ⟨q, h1, h2⟩ := apply_slide_up_w basis p _ _ hx (by omega) h64 hply hw hdis hown hjs hjc hht hss hsc
+      rw [t, e] at h2; exact ⟨_, q, by simp only []; decide, h1, h2⟩
     · have t := tD a b
       rw [← t] at hss hsc
       have hy1 : 1 ≤ j / p.cfg.size := by rw [b]; exact Nat.succ_le_succ (Nat.zero_le _)
-      obtain ⟨q, h1, h2⟩ := apply_slide_down_w basis p _ _ hx hy1 hy h64 hply hw hown hjs hjc hht hss hsc
-      rw [t, e] at h2; exact ⟨_, q, h1, h2⟩
+      obtain ⟨q, h1, h2⟩ := apply_slide_down_w basis p _ _ hx hy1 hy h64 hply hw hdis hown hjs hjc hht hss hsc
+      rw [t, e] at h2; exact ⟨_, q, by simp only []; decide, h1, h2⟩
   · rw [hb] at hcol; subst hcol
     simp only [own] at hown ⊢
     have hnw : p.white.getLsbD j = false := by
@@ -129,21 +139,21 @@ theorem slide_generic (basis : Array W) (p : Pos) (wf : WFBoard p) (hh : Heights
     rcases hco with ⟨a, b | b⟩ | ⟨a, b | b⟩
     · have t := tR a b
       rw [← t] at hss hsc
-      obtain ⟨q, h1, h2⟩ := apply_slide_right_b basis p _ _ (by omega) hy h64 hply hb hown hnw hjs hjc hht hss hsc
-      rw [t, e] at h2; exact ⟨_, q, h1, h2⟩
+      obtain ⟨q, h1, h2⟩ := apply_slide_right_b basis p _ _ (by omega) hy h64 hply hb hdis hown hnw hjs hjc hht hss hsc
+      rw [t, e] at h2; exact ⟨_, q, by simp only []; decide, h1, h2⟩
     · have t := tL a b
       rw [← t] at hss hsc
       have hx1 : 1 ≤ j % p.cfg.size := by rw [b]; exact Nat.succ_le_succ (Nat.zero_le _)
-      obtain ⟨q, h1, h2⟩ := apply_slide_left_b basis p _ _ hx1 hx hy h64 hply hb hown hnw hjs hjc hht hss hsc
-      rw [t, e] at h2; exact ⟨_, q, h1, h2⟩
+      obtain ⟨q, h1, h2⟩ := apply_slide_left_b basis p _ _ hx1 hx hy h64 hply hb hdis hown hnw hjs hjc hht hss hsc
+      rw [t, e] at h2; exact ⟨_, q, by simp only []; decide, h1, h2⟩
     · have t := tU a b
       rw [← t] at hss hsc
-      obtain ⟨q, h1, h2⟩ := apply_slide_up_b basis p _ _ hx (by omega) h64 hply hb hown hnw hjs hjc hht hss hsc
-      rw [t, e] at h2; exact ⟨_, q, h1, h2⟩
+      obtain ⟨q, h1, h2⟩ := apply_slide_up_b basis p _ _ hx (by omega) h64 hply hb hdis hown hnw hjs hjc hht hss hsc
+      rw [t, e] at h2; exact ⟨_, q, by simp only []; decide, h1, h2⟩
     · have t := tD a b
       rw [← t] at hss hsc
       have hy1 : 1 ≤ j / p.cfg.size := by rw [b]; exact Nat.succ_le_succ (Nat.zero_le _)
-      obtain ⟨q, h1, h2⟩ := apply_slide_down_b basis p _ _ hx hy1 hy h64 hply hb hown hnw hjs hjc hht hss hsc
-      rw [t, e] at h2; exact ⟨_, q, h1, h2⟩
+      obtain ⟨q, h1, h2⟩ := apply_slide_down_b basis p _ _ hx hy1 hy h64 hply hb hdis hown hnw hjs hjc hht hss hsc
+      rw [t, e] at h2; exact ⟨_, q, by simp only []; decide, h1, h2⟩
 
 end C19
